@@ -195,3 +195,148 @@ func c10Events(rt *rapid.T) {
 }
 
 func TestC10Events(t *testing.T) { rapid.Check(t, c10Events) }
+
+// A response with a fatal error code (SERVER_ERROR, PROTOCOL_ERROR, AUTH_ERROR) makes the client drop the connection -
+// after the response has been delivered to its request like any other. k requests, the last one answered by such an
+// error: every request receives exactly its own response.
+type c10FatalSpec struct {
+	Version int
+	K       int
+	Code    int // 0 server error, 1 protocol error, 2 authentication error
+	Batch   bool
+}
+
+func c10FatalSession(args []string, _ []byte) string {
+	var spec c10FatalSpec
+	if err := json.Unmarshal([]byte(args[0]), &spec); err != nil {
+		return "FAIL: harness: " + err.Error()
+	}
+	v := primitive.ProtocolVersion(spec.Version)
+	const T = 10 * time.Second
+	ln, err := net.Listen("tcp", "127.0.0.1:0")
+	if err != nil {
+		return "FAIL: harness: " + err.Error()
+	}
+	defer ln.Close()
+	peer := make(chan string, 1)
+	release := make(chan struct{})
+	defer close(release)
+	go func() {
+		c, err := ln.Accept()
+		if err != nil {
+			peer <- "harness: accept: " + err.Error()
+			return
+		}
+		defer c.Close()
+		l := newRawLink(c)
+		l.setDeadline(6 * T)
+		if _, err := l.serverHandshake(false); err != nil {
+			peer <- "raw server: " + err.Error()
+			return
+		}
+		var out [][]byte
+		for i := 0; i < spec.K; i++ {
+			e, err := l.readEnvelope()
+			if err != nil {
+				peer <- fmt.Sprintf("raw server: reading request %d: %v", i, err)
+				return
+			}
+			var f *frame.Frame
+			if i < spec.K-1 {
+				f = taggedFinal(v, e.Stream, fmt.Sprintf("r%d", i))
+			} else {
+				msg := fmt.Sprintf("fatal-%d", i)
+				switch spec.Code {
+				case 0:
+					f = frame.NewFrame(v, e.Stream, &message.ServerError{ErrorMessage: msg})
+				case 1:
+					f = frame.NewFrame(v, e.Stream, &message.ProtocolError{ErrorMessage: msg})
+				default:
+					f = frame.NewFrame(v, e.Stream, &message.AuthenticationError{ErrorMessage: msg})
+				}
+			}
+			enc, err := ref.EncodeFrame(f)
+			if err != nil {
+				peer <- "harness: " + err.Error()
+				return
+			}
+			out = append(out, enc.Flat(nil))
+		}
+		if spec.Batch {
+			err = l.writeEnvelopes(out, false, nil, true)
+		} else {
+			for _, o := range out {
+				if err = l.writeEnvelopes([][]byte{o}, false, nil, true); err != nil {
+					break
+				}
+			}
+		}
+		if err != nil {
+			peer <- "harness: raw server: write: " + err.Error() // the client may already have dropped the connection
+			return
+		}
+		peer <- ""
+		<-release
+	}()
+	cl := client.NewCqlClient(ln.Addr().String(), nil)
+	cl.ReadTimeout = 3 * T
+	ctx, cancel := context.WithCancel(context.Background())
+	defer cancel()
+	var cc *client.CqlClientConnection
+	if err := within(T, "ConnectAndInit", func() (err error) { cc, err = cl.ConnectAndInit(ctx, v, client.ManagedStreamId); return }); err != nil {
+		return "FAIL: handshake with the raw server failed: " + err.Error()
+	}
+	defer cc.Close()
+	var reqs []client.InFlightRequest
+	for i := 0; i < spec.K; i++ {
+		r, err := cc.Send(frame.NewFrame(v, client.ManagedStreamId, &message.Query{Query: fmt.Sprintf("q%d", i)}))
+		if err != nil {
+			return "FAIL: Send: " + err.Error()
+		}
+		reqs = append(reqs, r)
+	}
+	for i, r := range reqs {
+		select {
+		case f, ok := <-r.Incoming():
+			if !ok || f == nil {
+				return fmt.Sprintf("FAIL: request %d of %d (stream %d) was closed without receiving its response (Err=%v); the last response carries a fatal error code", i, spec.K, r.StreamId(), r.Err())
+			}
+			want := fmt.Sprintf("r%d", i)
+			got := tagOf(f)
+			if e, ok := f.Body.Message.(message.Error); ok {
+				got = e.GetErrorMessage()
+				want = fmt.Sprintf("fatal-%d", i)
+			}
+			if i == spec.K-1 {
+				want = fmt.Sprintf("fatal-%d", i)
+			}
+			if got != want {
+				return fmt.Sprintf("FAIL: request %d received %q, expected %q", i, got, want)
+			}
+		case <-time.After(T):
+			return fmt.Sprintf("FAIL: request %d of %d received nothing within %v", i, spec.K, T)
+		}
+	}
+	return "OK"
+}
+
+func init() { workerHandlers["c10fatal"] = c10FatalSession }
+
+func c10Fatal(rt *rapid.T) {
+	rec := stats.For("C10")
+	spec := c10FatalSpec{Version: int(rapid.SampledFrom(allVersions).Draw(rt, "version")), K: rapid.IntRange(1, 4).Draw(rt, "k"),
+		Code: rapid.IntRange(0, 2).Draw(rt, "code"), Batch: rapid.Bool().Draw(rt, "batch")}
+	sj, _ := json.Marshal(spec)
+	verdict := isolated("c10fatal", []string{string(sj)}, nil)
+	verdict = harnessTrouble(verdict)
+	if strings.HasPrefix(verdict, "FAIL:") {
+		rt.Fatalf("%s\nspec %s", verdict, sj)
+	}
+	if strings.HasPrefix(verdict, "SKIP:") {
+		rec.Case(false, 0, nil, "skipped")
+		return
+	}
+	rec.Case(true, stats.HashString("fatal/"+string(sj)), func() string { return "fatal error as the last response: " + string(sj) }, "fatal-error-response")
+}
+
+func TestC10Fatal(t *testing.T) { rapid.Check(t, c10Fatal) }
